@@ -798,6 +798,10 @@ class FillNode(BaseNode):
                 if not key.startswith("_"):
                     data.extra_context[key] = value
 
+            # NOTE: The fill is rendered later, when the loop has moved on, so we keep a copy of the loop's state.
+            if "forloop" in dict_layer:
+                data.extra_context["forloop"] = dict_layer["forloop"].copy()
+
         # To allow using the variables from the forloops inside the fill tags, we need to
         # capture those variables too.
         #
@@ -822,12 +826,11 @@ class FillNode(BaseNode):
         #   {'forloop': {'parentloop': {...}, 'counter0': 2, 'counter': 3, ... }, 'outer': 2},
         #   {'forloop': {'parentloop': {...}, 'counter0': 1, 'counter': 2, ... }, 'slot_name': 'slot2'}
         # ]
-        for layer in context.dicts:
-            if "forloop" in layer:
-                layer = layer.copy()
-                layer["forloop"] = layer["forloop"].copy()
-                data.extra_context.update(layer)
-
+        #
+        # NOTE: These are captured above, together with the other variables defined within
+        # `{% component %} ... {% endcomponent %}`, in the order in which they were defined, so that
+        # the variable defined nearest to the `{% fill %}` wins. The loops AROUND the `{% component %}`
+        # tag are part of the context in which the fill is rendered.
         collected_fills.append(data)
 
 
